@@ -307,3 +307,208 @@ def canonicalise(tree, classes, modfuncs=None):
     c.visit(tree)
     ast.fix_missing_locations(tree)
     return c.counts
+
+
+
+# ------------------------------------------------------------------------------------------------------------------
+# named tuples read as the tuples they are: `P = namedtuple("P", [...])`; `return P(a=x, b=y)`; `r = f(); r.b`  ->  `return (x, y)`; `r[1]`
+
+def namedtuple_tables(mods):
+    """(named tuple name -> field list, function name -> named tuple its every return builds) over the raw modules of src/"""
+    nts = {}
+    for mod in mods:
+        for st in mod.body:
+            if isinstance(st, ast.Assign) and len(st.targets) == 1 and isinstance(st.targets[0], ast.Name) and isinstance(st.value, ast.Call):
+                f = st.value.func
+                fname = f.id if isinstance(f, ast.Name) else (f.attr if isinstance(f, ast.Attribute) else None)
+                if fname == "namedtuple" and len(st.value.args) >= 2:
+                    fl = st.value.args[1]
+                    fields = None
+                    if isinstance(fl, (ast.List, ast.Tuple)) and all(isinstance(e, ast.Constant) and isinstance(e.value, str) for e in fl.elts):
+                        fields = [e.value for e in fl.elts]
+                    elif isinstance(fl, ast.Constant) and isinstance(fl.value, str):
+                        fields = fl.value.replace(",", " ").split()
+                    if fields:
+                        nts[st.targets[0].id] = fields
+            if isinstance(st, ast.ClassDef) and any((isinstance(b, ast.Name) and b.id == "NamedTuple") or (isinstance(b, ast.Attribute) and b.attr == "NamedTuple")
+                                                    for b in st.bases):
+                fields = [x.target.id for x in st.body if isinstance(x, ast.AnnAssign) and isinstance(x.target, ast.Name)]
+                if fields:
+                    nts[st.name] = fields
+    defs = {}
+    for mod in mods:
+        for fn in [n for n in ast.walk(mod) if isinstance(n, ast.FunctionDef)]:
+            defs.setdefault(fn.name, []).append(fn)
+    returns = {}
+    changed = True
+    while changed and nts:
+        changed = False
+        for name, fns in defs.items():
+            if len(fns) != 1 or name in returns:
+                continue
+            fn = fns[0]
+            rets = [r.value for r in ast.walk(fn) if isinstance(r, ast.Return) and r.value is not None]
+            if not rets:
+                continue
+            kinds = set()
+            for r in rets:
+                v = r
+                if isinstance(v, ast.Name):
+                    ds = [s_.value for s_ in ast.walk(fn) if isinstance(s_, ast.Assign) and any(isinstance(t, ast.Name) and t.id == v.id for t in s_.targets)]
+                    v = ds[0] if len(ds) == 1 else None
+                k = None
+                if isinstance(v, ast.Call):
+                    f = v.func
+                    cn = f.id if isinstance(f, ast.Name) else (f.attr if isinstance(f, ast.Attribute) else None)
+                    k = cn if cn in nts else returns.get(cn)
+                kinds.add(k)
+            if len(kinds) == 1 and None not in kinds:
+                returns[name] = kinds.pop()
+                changed = True
+    return nts, returns
+
+
+def namedtuples_as_tuples(tree, nts, returns):
+    """rewrite in place; -> number of rewritten nodes"""
+    if not nts:
+        return 0
+    n = [0]
+
+    class Build(ast.NodeTransformer):
+        def visit_Call(self, c):
+            self.generic_visit(c)
+            if isinstance(c.func, ast.Name) and c.func.id in nts and not any(isinstance(a, ast.Starred) for a in c.args) and all(k.arg for k in c.keywords):
+                fields = nts[c.func.id]
+                vals = dict(zip(fields, c.args))
+                vals.update({k.arg: k.value for k in c.keywords})
+                if set(vals) == set(fields):
+                    n[0] += 1
+                    return ast.copy_location(ast.Tuple(elts=[vals[f] for f in fields], ctx=ast.Load()), c)
+            return c
+
+    Build().visit(tree)
+    for fn in [x for x in ast.walk(tree) if isinstance(x, ast.FunctionDef)]:
+        holds = {}
+        for st in ast.walk(fn):
+            if isinstance(st, ast.Assign) and len(st.targets) == 1 and isinstance(st.targets[0], ast.Name) and isinstance(st.value, ast.Call):
+                f = st.value.func
+                cn = f.id if isinstance(f, ast.Name) else (f.attr if isinstance(f, ast.Attribute) else None)
+                if cn in returns:
+                    holds.setdefault(st.targets[0].id, set()).add(returns[cn])
+        others = {}
+        for st in ast.walk(fn):
+            if isinstance(st, ast.Assign):
+                for t in st.targets:
+                    if isinstance(t, ast.Name) and t.id in holds and not (isinstance(st.value, ast.Call) and (
+                            (st.value.func.id if isinstance(st.value.func, ast.Name) else getattr(st.value.func, "attr", None)) in returns)):
+                        others[t.id] = True
+        holds = {k: next(iter(v)) for k, v in holds.items() if len(v) == 1 and k not in others}
+        if not holds:
+            continue
+
+        class Field(ast.NodeTransformer):
+            def visit_Attribute(self, a):
+                self.generic_visit(a)
+                if isinstance(a.value, ast.Name) and a.value.id in holds and a.attr in nts[holds[a.value.id]] and isinstance(a.ctx, ast.Load):
+                    n[0] += 1
+                    return ast.copy_location(ast.Subscript(value=a.value, slice=ast.Constant(value=nts[holds[a.value.id]].index(a.attr)), ctx=ast.Load()), a)
+                return a
+
+        Field().visit(fn)
+    if n[0]:
+        ast.fix_missing_locations(tree)
+    return n[0]
+
+
+
+# ------------------------------------------------------------------------------------------------------------------
+# tuple-valued parameters unpacked at entry: `def f(x, pair): a, b = pair; ...` called as `f(x, (u, v))`  ->  `def f(x, a, b)`, `f(x, u, v)`
+
+def tuple_param_table(mods):
+    """function name -> {parameter: [names it is unpacked into]} for functions with a repository-wide unique name whose body starts by
+    unpacking the parameter (used nowhere else) and whose every call hands a literal tuple of that length over for it"""
+    defs, calls = {}, {}
+    for mod in mods:
+        for f in [n for n in ast.walk(mod) if isinstance(n, ast.FunctionDef)]:
+            defs.setdefault(f.name, []).append(f)
+        for c in [n for n in ast.walk(mod) if isinstance(n, ast.Call)]:
+            nm = c.func.attr if isinstance(c.func, ast.Attribute) else (c.func.id if isinstance(c.func, ast.Name) else None)
+            if nm:
+                calls.setdefault(nm, []).append(c)
+    out = {}
+    for name, fs in defs.items():
+        if len(fs) != 1 or name.startswith("__") or name not in calls:
+            continue
+        fn = fs[0]
+        a = fn.args
+        if a.vararg or a.kwarg or a.kwonlyargs or a.posonlyargs or a.defaults:
+            continue
+        params = [x.arg for x in a.args]
+        body = [s_ for s_ in fn.body if not (isinstance(s_, ast.Expr) and isinstance(s_.value, ast.Constant))]
+        found = {}
+        for st in body:
+            if isinstance(st, ast.Assign) and len(st.targets) == 1 and isinstance(st.targets[0], ast.Tuple) and isinstance(st.value, ast.Name) \
+                    and st.value.id in params and all(isinstance(e, ast.Name) for e in st.targets[0].elts):
+                uses = [n for n in ast.walk(fn) if isinstance(n, ast.Name) and n.id == st.value.id]
+                if len(uses) == 1 and not ({e.id for e in st.targets[0].elts} & set(params)):
+                    found[st.value.id] = [e.id for e in st.targets[0].elts]
+            else:
+                break          # only the leading statements
+        if not found:
+            continue
+        static = any(isinstance(d, ast.Name) and d.id == "staticmethod" for d in fn.decorator_list)
+        bound_params = params[1:] if (params and params[0] in ("self", "cls") and not static) else params
+        ok = True
+        for c in calls[name]:
+            if any(isinstance(x, ast.Starred) for x in c.args) or any(k.arg is None for k in c.keywords):
+                ok = False
+                break
+            got = dict(zip(bound_params, c.args))
+            got.update({k.arg: k.value for k in c.keywords})
+            for p_, names in found.items():
+                v = got.get(p_)
+                if not (isinstance(v, ast.Tuple) and len(v.elts) == len(names) and not any(isinstance(e, ast.Starred) for e in v.elts)):
+                    ok = False
+        if ok:
+            out[name] = found
+            out[("__params__", name)] = bound_params
+    return out
+
+
+def flatten_tuple_params(tree, table):
+    """rewrite definitions and calls in place; -> number of flattened parameters"""
+    if not table:
+        return 0
+    n = 0
+    for fn in [x for x in ast.walk(tree) if isinstance(x, ast.FunctionDef) and x.name in table]:
+        found = table[fn.name]
+        new_args = []
+        for x in fn.args.args:
+            if x.arg in found:
+                new_args += [ast.copy_location(ast.arg(arg=nm), x) for nm in found[x.arg]]
+                n += 1
+            else:
+                new_args.append(x)
+        fn.args.args = new_args
+        fn.body = [s_ for s_ in fn.body if not (isinstance(s_, ast.Assign) and isinstance(s_.value, ast.Name) and s_.value.id in found
+                                                 and isinstance(s_.targets[0], ast.Tuple))]
+    defs_here = {}
+    for c in [x for x in ast.walk(tree) if isinstance(x, ast.Call)]:
+        nm = c.func.attr if isinstance(c.func, ast.Attribute) else (c.func.id if isinstance(c.func, ast.Name) else None)
+        if nm in table:
+            found = table[nm]
+            c.keywords = [k2 for k in c.keywords for k2 in (
+                [ast.keyword(arg=nm2, value=v2) for nm2, v2 in zip(found[k.arg], k.value.elts)] if k.arg in found and isinstance(k.value, ast.Tuple) else [k])]
+            # positional tuples: their position is known from the definition's (old) parameter list, kept in `_old_params`
+            old = table.get(("__params__", nm))
+            if old:
+                new_pos = []
+                for p_, v in zip(old, c.args):
+                    if p_ in found and isinstance(v, ast.Tuple):
+                        new_pos += list(v.elts)
+                    else:
+                        new_pos.append(v)
+                c.args = new_pos + list(c.args[len(old):])
+    if n:
+        ast.fix_missing_locations(tree)
+    return n
